@@ -25,6 +25,7 @@ type c09Case struct {
 	PreRoot bool         `json:"preRoot,omitempty"` // the first root already exists in the target (the real run would fail with "path already exists")
 	Color   bool         `json:"color,omitempty"`   // (simple mode) the dry run is made with colours enabled, as on a terminal
 	Full    bool         `json:"full,omitempty"`    // the dry run's target is a file system without room for a single entry (a dry run creates nothing, so it cannot notice)
+	Order   int          `json:"order,omitempty"`   // ops.Opts.OptOrder of both runs: the option list rotated by Order/2 and reversed when odd
 	NoIter  bool         `json:"noIter,omitempty"`  // output-md: with WithNoUseIterOfSimpleOutput (the non-iterator code path of the simple mode)
 }
 
@@ -48,6 +49,7 @@ func c09Check(c c09Case) string {
 	}
 	dry.Opts.DryRun = true
 	dry.Opts.Exts = c.Exts
+	dry.Opts.OptOrder = c.Order
 	dry.Opts.Massive = c.Massive
 	dry.Opts.Color = c.Color && !c.Massive
 	dry.Opts.NoIter = c.NoIter && c.Route == "output-md"
@@ -87,6 +89,7 @@ func c09Check(c c09Case) string {
 		real.Doc = []byte(model.Spell(f, model.Plain2))
 	}
 	real.Opts.Exts = c.Exts
+	real.Opts.OptOrder = c.Order
 	real.FS = &ops.FSSpec{}
 	rres := pool("chroot").Run(&real)
 	if rres.Infra != "" {
@@ -275,6 +278,7 @@ func TestC09Random(t *testing.T) {
 			uniqRoots(f)
 		}
 		c := c09Case{Forest: f, Route: route, Massive: rapid.IntRange(0, 2).Draw(rt, "massive") == 0, Exts: genExts(extSources(f)).Draw(rt, "exts")}
+		c.Order = rapid.IntRange(0, 9).Draw(rt, "optOrder")
 		c.NoIter = route == "output-md" && rapid.IntRange(0, 2).Draw(rt, "noIter") == 0
 		c.Full = mountOK() && rapid.IntRange(0, 4).Draw(rt, "full") == 0
 		noNewline := true
